@@ -10,7 +10,7 @@ from vlib.harness import CheckBase, Verdict, VERIF
 FAULTS = ["flip-id", "flip-data", "flip-idmark", "flip-datamark", "flip-gap", "slip", "zero-run", "truncate",
           "kill-id-sync", "kill-data-sync", "kill-pair", "kill-pair", "deleted-damaged", "deleted-damaged",
           "badcrc-damaged", "edge-all-tracks", "edge-all-tracks", "stray-cyl", "stray-cyl", "stray-head",
-          "one-data-bit", "one-data-bit", "one-data-bit", "id-only", "id-only", "id-only", "id-only"]
+          "one-data-bit", "one-data-bit", "one-data-bit", "id-only", "id-only", "id-only", "id-only", "rand-run", "rand-run"]
 
 
 @st.composite
@@ -41,7 +41,8 @@ class C06(CheckBase):
             "(every sector distinct) receives a drawn fault set of 1-5 faults (usually 1 or 2): bit flips inside a chosen sector's ID "
             "field / data field / address marks / gap, 1-7-cell slips (insert or delete), zeroed runs, wiped sync "
             "runs, truncation of a track, records with valid CRCs whose ID names another cylinder or the other head; "
-            "an ID field with no record behind it and only 0-7 gap bytes before the next sector; "
+            "an ID field with no record behind it and only 0-7 gap bytes before the next sector; an HFEv3 RAND (weak "
+            "bytes) run from one record's data field to the next record's ID field; "
             "exactly one flipped data bit inside a CRC-covered field (such a sector must not be readable at all); "
             "then dump-sector is run for EVERY (side, track, sector): it must fail or "
             "print exactly the bytes recorded under that address.  (2) decoder level (libFuzzer target fuzz_track, "
@@ -149,6 +150,7 @@ class C06(CheckBase):
         # first, while the field map is still exact.  A single wrong bit always fails CRC-16/CCITT, so such a sector
         # must never be readable (recorded in must_fail unless another fault also aims at the same sector).
         self.must_fail = set()
+        self.rand_runs = {}
         aimed = {}
         for f in faults:
             key = (f["track"], min(f["side"], case["nsides"] - 1), f["sector"])
@@ -231,6 +233,24 @@ class C06(CheckBase):
                 hit_field = True
             elif k in ("deleted-damaged", "badcrc-damaged", "stray-cyl", "stray-head"):
                 hit_field = True          # applied when the track was encoded
+            elif k == "rand-run":
+                # (HFE v3 only) on EVERY track the bytes from the data field of the last-but-one record up to and
+                # including the ID field of the last record -- plus part of the gaps around them -- are RAND (weak)
+                # bytes: both sectors are unreadable, neither may be returned, and above all not one for the other
+                if case["kind"] == "hfe3":
+                    per = 4 if case["encoding"] == "FM" else 8        # cells per HFE byte
+                    for t2 in range(case["tracks"]):
+                        for sd2 in range(case["nsides"]):
+                            fa = fmaps[t2][sd2].get(case["spt"] - 2)
+                            fb = fmaps[t2][sd2].get(case["spt"] - 1)
+                            if not fa or not fb or fb["id"][0] < fa["data"][0]:
+                                continue
+                            a0 = fa["data"][0] // per - (f["n"] % 3) * 6
+                            a1 = fb["id"][1] // per + 2 + (f["off"] % 3) * 6
+                            self.rand_runs[(t2, sd2)] = {max(0, a0): [("rand", a1 - max(0, a0))]}
+                            self.must_fail.add((sd2, t2, case["spt"] - 2))
+                            self.must_fail.add((sd2, t2, case["spt"] - 1))
+                    hit_field = True
             elif k == "id-only":
                 hit_field = True
                 if f["bits"] >= 2:
@@ -274,7 +294,14 @@ class C06(CheckBase):
             data = flux.build_hxcmfm(cells, nsides)
             ext = "mfm"
         else:
-            data = flux.build_hfe(cells, nsides, case["encoding"], version=1 if case["kind"] == "hfe1" else 3)
+            v3ops = None
+            if case["kind"] == "hfe3" and self.rand_runs:
+                rr = dict(self.rand_runs)
+
+                def v3ops(t, sd):
+                    return rr.get((t, sd))
+            data = flux.build_hfe(cells, nsides, case["encoding"], version=1 if case["kind"] == "hfe1" else 3,
+                                  v3ops=v3ops)
             ext = "hfe"
         with runtool.Sandbox("c06") as sb:
             img = sb.file("img." + ext, data)
